@@ -73,11 +73,10 @@ class ParserProxy(object):
         fid = ['F', idx, name]
         try:
             trees = self.real.parse(data, **kwargs)
-        except error.PySmiLexerError as exc:
-            self.rec.log.append(ev('parse', idx, name, file=name, ans='lexerr', text=fid))
-            raise _tag(exc, ('src', idx, name))
         except error.PySmiError as exc:
-            self.rec.log.append(ev('parse', idx, name, file=name, ans='parseerr', text=fid))
+            # PySmiParserError is a subclass of PySmiLexerError: a lexer error is one that is not a parser error
+            kind = 'lexerr' if isinstance(exc, error.PySmiLexerError) and not isinstance(exc, error.PySmiParserError) else 'parseerr'
+            self.rec.log.append(ev('parse', idx, name, file=name, ans=kind, text=fid))
             raise _tag(exc, ('src', idx, name))
         self.rec.log.append(ev('parse', idx, name, file=name, ans='ok', text=fid, mods=[t[0] for t in trees]))
         return trees
